@@ -295,6 +295,17 @@ static long long apply(Inst &in, const std::string &e, const JV &c, bool &hasR)
         else if(bad == 2) img.resize(20);                  // header + half a track header
         else if(bad == 3) img.clear();                     // empty
         else if(bad == 4) img[c.get("s", 1) == 3 ? 77 : 15] ^= 0x20;   // MTrk (song 3: rsxx) signature broken
+        else if(bad == 5)                                   // a well-formed Creative CMF song: parsed, then refused ("OPNMIDI doesn't support CMF")
+        {
+            img.assign(40, 0);
+            img[0] = 'C'; img[1] = 'T'; img[2] = 'M'; img[3] = 'F'; img[4] = 1; img[5] = 1;
+            img[6] = 40; img[8] = 56;           // instruments at 40, music at 56
+            img[10] = 96; img[12] = 96;         // ticks per quarter / per second
+            img[36] = 1;                        // one instrument
+            img.insert(img.end(), 16, 0);
+            const uint8_t mus[] = { 0x00, 0x90, 0x3C, 0x64, 0x10, 0x80, 0x3C, 0x00, 0x00, 0xFF, 0x2F, 0x00 };
+            img.insert(img.end(), mus, mus + sizeof mus);
+        }
         uint8_t dummy = 0;
         r = opn2_openData(dev, img.empty() ? &dummy : img.data(), (unsigned long)img.size()); hasR = true;
     }
